@@ -206,7 +206,9 @@ fn check_one(
             Ext::Raw | Ext::Stream => j["len"] == echo_want["len"] && j["fnv"] == echo_want["fnv"] && j["limit"] == echo_want["limit"],
             _ => &j == echo_want,
         };
-        if resp.status != 200 {
+        if framing.starts_with("mixed") && (400..500).contains(&resp.status) {
+            // both Content-Length and Transfer-Encoding: a server may refuse the request outright
+        } else if resp.status != 200 {
             why.push("body within the limit refused");
         } else if !intact {
             why.push("body within the limit not delivered intact (or wrong effective limit)");
@@ -233,7 +235,7 @@ fn check_one(
     if !why.is_empty() {
         ctx.report(Violation {
             sig: json!({"kind":"body_limit","extractor": ext.name(), "why": why, "has_override": o.is_some(), "override_below_default": o.map(|x| x < d).unwrap_or(false),
-                "frames": intended_frames.len().min(3), "framing": if framing.starts_with("chunked") || framing == "paced" {"chunked"} else {"content-length"}}),
+                "frames": intended_frames.len().min(3), "framing": if framing.starts_with("mixed") {"content-length+chunked"} else if framing.starts_with("chunked") || framing == "paced" {"chunked"} else {"content-length"}}),
             case,
             expected: json!({"effective_limit": l, "outcome": if n <= l {"200, intact"} else {"4xx"}, "bytes_seen_by_handler_at_most": l}),
             observed: json!({"response": resp.to_json(), "max_bytes_seen_by_handler": max_seen}),
@@ -282,6 +284,24 @@ fn run_config(ctx: &Ctx, d: usize, overrides: &[Option<usize>], cn: &Cn, samples
                         }
                         let req = chunked_request(ext.method(), &path, &ct, &chunks);
                         check_one(ctx, &srv, &mut ka, d, *o, ext, n, "chunked", &req, &comp, &want, cn, samples, None);
+                    }
+                }
+                // both framings declared at once (Content-Length before / after Transfer-Encoding: chunked,
+                // with a declared length that is small, exact or large): whatever the HTTP layer makes of
+                // it, no more than L bytes are delivered
+                if n >= 1 && (near || n == 2 * l + 1 || n == 1000) {
+                    for (label, cl_first) in [("mixed:content-length-then-chunked", true), ("mixed:chunked-then-content-length", false)] {
+                        for k in [0usize, 1, n, l, 10 * n] {
+                            let cl = format!("content-length: {k}\r\n");
+                            let te = "transfer-encoding: chunked\r\n";
+                            let (h1, h2) = if cl_first { (cl.as_str(), te) } else { (te, cl.as_str()) };
+                            let mut req = format!("{} {path} HTTP/1.1\r\nhost: h\r\n{h1}{h2}{ct}\r\n", ext.method()).into_bytes();
+                            req.extend_from_slice(format!("{:x}\r\n", body.len()).as_bytes());
+                            req.extend_from_slice(&body);
+                            req.extend_from_slice(b"\r\n0\r\n\r\n");
+                            let mut k2 = KeepAlive::new(srv.addr);
+                            check_one(ctx, &srv, &mut k2, d, *o, ext, n, label, &req, &[n], &want, cn, samples, None);
+                        }
                     }
                 }
                 // paced streaming: the handler has consumed chunk i before chunk i+1 is sent
@@ -392,7 +412,7 @@ fn main() {
     let cov = json!({
         "evaluations": cn.requests.load(Ordering::Relaxed),
         "distinct_nontrivial": cn.over_limit.load(Ordering::Relaxed),
-        "rule": "configurations = server default D x endpoint override O (incl. overrides below and above the default, none) x extractor {TypedBody JSON, TypedBody url-encoded, UntypedBody, StreamingBody, MultipartBody}; effective limit L = O or else D. For every body length n in 0..=L+8 and {2L+1, 10L+3, 1000, 100000} (a valid document of exactly n bytes per extractor): content-length framing, one chunk, and - near the limit (thorough: for every n <= L+3) - every composition of n into 2 and 3 chunks; for StreamingBody additionally paced chunks (chunk i+1 written after the handler consumed chunk i). Oracle: n <= L -> 200 and the echo (value / length + FNV checksum / parts) equals the client's and the handler reports effective limit L; n > L -> 4xx; the largest running byte total any handler reported is <= L. distinct_nontrivial = requests with n > L.",
+        "rule": "configurations = server default D x endpoint override O (incl. overrides below and above the default, none) x extractor {TypedBody JSON, TypedBody url-encoded, UntypedBody, StreamingBody, MultipartBody}; effective limit L = O or else D. For every body length n in 0..=L+8 and {2L+1, 10L+3, 1000, 100000} (a valid document of exactly n bytes per extractor): content-length framing, one chunk, and - near the limit (thorough: for every n <= L+3) - every composition of n into 2 and 3 chunks; near the limit also requests that declare both Content-Length (0, 1, n, L, 10n) and Transfer-Encoding: chunked in either header order; for StreamingBody additionally paced chunks (chunk i+1 written after the handler consumed chunk i). Oracle: n <= L -> 200 and the echo (value / length + FNV checksum / parts) equals the client's and the handler reports effective limit L; n > L -> 4xx; the largest running byte total any handler reported is <= L. distinct_nontrivial = requests with n > L.",
         "defaults": defaults, "overrides": overrides, "within_limit": cn.within_limit.load(Ordering::Relaxed), "over_limit": cn.over_limit.load(Ordering::Relaxed),
         "frame_control_exact": cn.frames_exact.load(Ordering::Relaxed), "frame_control_inexact": cn.frames_inexact.load(Ordering::Relaxed),
         "distinct_frame_sequences_seen_by_streaming_handler": cn.distinct_frame_seqs.lock().unwrap().len(),
